@@ -261,4 +261,30 @@ double mirror_arm_mixed(double val, double sLo, double sUp)
 
    return slackVal;
 }
+
+// S7: mirror-named member functions with the same shape where one of them mixes the sides
+struct BoundsCtl
+{
+   double lo[4];
+   double up[4];
+   double changeLower(int i, double v)
+   {
+      if(v <= double(-soplex::infinity))
+         lo[i] = double(-soplex::infinity);
+      else
+         lo[i] = v;
+
+      return lo[i];
+   }
+   double changeUpper(int i, double v)
+   {
+      if(v >= double(soplex::infinity))
+         up[i] = double(soplex::infinity);
+      else
+         lo[i] = v;
+
+      return up[i];
+   }
+};
+double use_bounds_ctl(BoundsCtl& b) { return b.changeLower(0, 1.0) + b.changeUpper(0, 2.0); }
 }
